@@ -35,6 +35,31 @@ type KV struct {
 	V  string
 }
 
+// ghostID is non-zero while a "ghost" statement runs (an update / delete of a key no row has): the
+// model's hooks then write a row with this key through the handle they are given. The statement itself
+// affects no row; what its hook wrote belongs to the same (block or default) transaction.
+var ghostID int64
+
+// ghostWrote: the hook ran and its Create returned nil (a SkipHooks handle runs no hook; an injected fault
+// may fail the hook's own statement)
+var ghostWrote bool
+
+func ghostWrite(tx *gorm.DB) error {
+	if ghostID == 0 {
+		return nil
+	}
+	id := ghostID
+	ghostID = 0
+	err := tx.Create(&KV{ID: id, V: "hook"}).Error
+	ghostWrote = err == nil
+	return err
+}
+
+func (k *KV) BeforeUpdate(tx *gorm.DB) error { return ghostWrite(tx) }
+func (k *KV) BeforeDelete(tx *gorm.DB) error { return ghostWrite(tx) }
+
+const ghostKey = int64(1) << 40
+
 type cfg struct{ prep, noNested, skipDefault bool }
 
 func (c cfg) String() string {
@@ -133,7 +158,7 @@ func (g *gen) block(depth int) *block {
 		case k == 3:
 			b.items = append(b.items, item{kind: "read", via: g.via()})
 		case k == 4:
-			b.items = append(b.items, item{kind: core.Pick(g.r, []string{"update", "delete"}), via: g.via()})
+			b.items = append(b.items, item{kind: core.Pick(g.r, []string{"update", "delete", "update", "delete", "ghost-update", "ghost-delete"}), via: g.via()})
 		default:
 			if depth > 1 && g.blocks < 12 {
 				b.items = append(b.items, item{kind: "child", child: g.block(depth - 1)})
@@ -176,6 +201,7 @@ type world struct {
 	nextID   int64
 	problems []string
 	trace    []string
+	outside  bool // the statement runs outside any block (runOutside)
 }
 
 func (w *world) add(f string, a ...interface{}) {
@@ -203,6 +229,30 @@ func (w *world) write(tx *gorm.DB) error {
 }
 
 func (w *world) mutate(tx *gorm.DB, kind string) error {
+	if strings.HasPrefix(kind, "ghost-") {
+		w.nextID++
+		id := w.nextID
+		ghostID, ghostWrote = id, false
+		var res *gorm.DB
+		if kind == "ghost-update" {
+			res = tx.Model(&KV{ID: ghostKey}).Update("v", "x")
+		} else {
+			res = tx.Delete(&KV{ID: ghostKey})
+		}
+		ghostID = 0
+		w.trace = append(w.trace, fmt.Sprintf("%s (no row matches; its hook writes %d: %v) -> %v", kind, id, ghostWrote, res.Error))
+		// inside an explicit transaction what the hook wrote is part of that transaction whether or not the
+		// statement after it failed; outside, the default transaction makes the whole call one unit
+		if ghostWrote && (res.Error == nil || !w.outside) {
+			w.state[id] = "hook"
+		}
+		if res.Error == nil {
+			if res.RowsAffected != 0 {
+				w.add("%s of a key no row has reported %d rows affected", kind, res.RowsAffected)
+			}
+		}
+		return res.Error
+	}
 	// pick the lowest existing id deterministically
 	var ids []int64
 	for id := range w.state {
@@ -305,7 +355,7 @@ func (w *world) runBlock(db *gorm.DB, b *block, nested bool) (err error) {
 				if e := w.write(derive(tx, it.via)); e != nil {
 					return e
 				}
-			case "update", "delete":
+			case "update", "delete", "ghost-update", "ghost-delete":
 				if e := w.mutate(derive(tx, it.via), it.kind); e != nil {
 					return e
 				}
@@ -540,7 +590,7 @@ type program struct {
 func genOutside(r *core.Rand) []item {
 	var out []item
 	for i, n := 0, r.Intn(4); i < n; i++ {
-		out = append(out, item{kind: core.Pick(r, []string{"write", "write", "read", "update", "delete"}), via: r.Intn(len(viaNames)) * r.Intn(2)})
+		out = append(out, item{kind: core.Pick(r, []string{"write", "write", "read", "update", "delete", "ghost-update", "ghost-delete"}), via: r.Intn(len(viaNames)) * r.Intn(2)})
 	}
 	return out
 }
@@ -556,9 +606,15 @@ func outsideString(items []item) string {
 // runOutside executes statements outside any block; an error (only possible with an injected
 // fault) leaves the model as it is.
 func (w *world) runOutside(items []item, faultFree bool) {
+	w.outside = true
+	defer func() { w.outside = false }()
 	for _, it := range items {
 		db := derive(w.h.DB.Session(&gorm.Session{}), it.via)
 		var e error
+		if strings.HasPrefix(it.kind, "ghost-") && w.k.skipDefault {
+			// without the default transaction a failing statement legitimately keeps what its hook wrote
+			continue
+		}
 		switch it.kind {
 		case "write":
 			e = w.write(db)
